@@ -83,6 +83,8 @@ type zzC0102Cfg struct {
 	Client  zzC0102Client `json:"client"`
 	AAAAOff bool          `json:"aaaaOff"`
 	Cache   bool          `json:"cache"`
+	// Cust says which pair of custom blocking addresses is configured (1, 2).
+	Cust int `json:"cust"`
 }
 
 type zzC0102Req struct {
@@ -121,6 +123,7 @@ func (o zzC0102Out) key() (k string) {
 var zzC0102Addrs = map[string]string{
 	"null4": "0.0.0.0", "null6": "::",
 	"cust4": "192.0.2.44", "cust6": "2001:db8:44::44",
+	"cust4b": "192.0.2.55", "cust6b": "2001:db8:55::55",
 	"r1": "198.51.100.1", "r2": "198.51.100.2", "r6": "2001:db8:51::1",
 	"sent4": "203.0.113.77", "sent6": "2001:db8:77::77",
 	"i1": "203.0.113.1", "i2": "203.0.113.2", "i6": "2001:db8:113::6", "j6": "2001:db8:113::7",
@@ -393,9 +396,33 @@ type zzC0102Srv struct {
 	asked map[string]bool
 	// ops is the log of reconfiguration operations, for diagnostics.
 	ops       []string
-	gen       int
 	wildStyle int
 	reqID     uint64
+	// ruleText keeps the rendering of every abstract rule for the life of the
+	// server: a list that gets the same rules again gets the same bytes.
+	ruleText map[string]string
+	// settleUntil bounds the wait for the last reconfiguration to take effect
+	// (the handlers rebuild the engines asynchronously).
+	settleUntil time.Time
+}
+
+// zzC0102CustAddrs returns the custom blocking addresses of a configuration.
+func zzC0102CustAddrs(cfg *zzC0102Cfg) (v4, v6 netip.Addr) {
+	if cfg.Cust == 2 {
+		return netip.MustParseAddr(zzC0102Addrs["cust4b"]), netip.MustParseAddr(zzC0102Addrs["cust6b"])
+	}
+
+	return netip.MustParseAddr(zzC0102Addrs["cust4"]), netip.MustParseAddr(zzC0102Addrs["cust6"])
+}
+
+// zzC0102Settle is the bound on the wait for a reconfiguration to take effect.
+func zzC0102Settle() (d time.Duration) {
+	ms, err := strconv.Atoi(os.Getenv("VERIF_SETTLE_MS"))
+	if err != nil || ms <= 0 {
+		ms = 2000
+	}
+
+	return time.Duration(ms) * time.Millisecond
 }
 
 // zzC0102List is the concrete state of one rule list of a live server.
@@ -435,7 +462,14 @@ func (z *zzC0102Srv) render(cfg *zzC0102Cfg, rng *rand.Rand, split bool) (byKey 
 	byKey = map[string][]string{}
 	for i := range cfg.Rules {
 		r := &cfg.Rules[i]
-		t := zzC0102RuleText(r, rng, z.wildStyle)
+		rk := *r
+		rk.ID, rk.Place = 0, ""
+		key := zzC0102JSON(rk)
+		t, ok := z.ruleText[key]
+		if !ok {
+			t = zzC0102RuleText(r, rng, z.wildStyle)
+			z.ruleText[key] = t
+		}
 		z.texts[r.Place] = append(z.texts[r.Place], t)
 		k := r.Place
 		if k == "block" && split && rng.Intn(3) == 0 {
@@ -465,7 +499,7 @@ func zzC0102Build(cfg *zzC0102Cfg, dir string, rng *rand.Rand) (z *zzC0102Srv, e
 
 	z = &zzC0102Srv{
 		cfg: cfg, dir: dir, lists: map[string]*zzC0102List{}, handlers: map[string]http.HandlerFunc{},
-		asked: map[string]bool{}, wildStyle: rng.Intn(3),
+		asked: map[string]bool{}, wildStyle: rng.Intn(3), ruleText: map[string]string{},
 	}
 	byKey := z.render(cfg, rng, true)
 
@@ -532,9 +566,10 @@ func zzC0102Build(cfg *zzC0102Cfg, dir string, rng *rand.Rand) (z *zzC0102Srv, e
 		}
 	}
 
+	cust4, cust6 := zzC0102CustAddrs(cfg)
 	z.fc = &filtering.Config{
-		BlockingIPv4:         netip.MustParseAddr(zzC0102Addrs["cust4"]),
-		BlockingIPv6:         netip.MustParseAddr(zzC0102Addrs["cust6"]),
+		BlockingIPv4:         cust4,
+		BlockingIPv6:         cust6,
 		ApplyClientFiltering: z.st.ApplyClientFiltering,
 		BlockedServices:      zzC0102Services(cfg.Svc),
 		DataDir:              dir,
@@ -621,6 +656,11 @@ func (z *zzC0102Srv) post(path string, body any) (err error) {
 		return fmt.Errorf("no handler for %s", path)
 	}
 
+	return z.postTo(h, path, body)
+}
+
+// postTo calls an HTTP handler with a JSON body.
+func (z *zzC0102Srv) postTo(h http.HandlerFunc, path string, body any) (err error) {
 	b, _ := json.Marshal(body)
 	r := httptest.NewRequest(http.MethodPost, path, bytes.NewReader(b))
 	r.Header.Set("Content-Type", "application/json")
@@ -638,19 +678,23 @@ func zzC0102SameLines(a, b []string) (ok bool) {
 	return strings.Join(a, "\n") == strings.Join(b, "\n")
 }
 
-// setList brings one rule list to the wanted contents through the handlers the
-// web UI uses.
-func (z *zzC0102Srv) setList(l *zzC0102List, want []string, rng *rand.Rand) (err error) {
+// setURL switches a list on or off through /control/filtering/set_url.
+func (z *zzC0102Srv) setURL(l *zzC0102List, on bool) (err error) {
 	type setData struct {
 		Name    string `json:"name"`
 		URL     string `json:"url"`
 		Enabled bool   `json:"enabled"`
 	}
-	setURL := func(on bool) (err error) {
-		return z.post("/control/filtering/set_url", map[string]any{
-			"url": l.src, "whitelist": l.white, "data": setData{Name: "list " + l.key, URL: l.src, Enabled: on},
-		})
-	}
+
+	return z.post("/control/filtering/set_url", map[string]any{
+		"url": l.src, "whitelist": l.white, "data": setData{Name: "list " + l.key, URL: l.src, Enabled: on},
+	})
+}
+
+// setList brings one rule list to the wanted contents through the handlers the
+// web UI uses.
+func (z *zzC0102Srv) setList(l *zzC0102List, want []string, rng *rand.Rand) (err error) {
+	setURL := func(on bool) (err error) { return z.setURL(l, on) }
 	remove := func() (err error) {
 		return z.post("/control/filtering/remove_url", map[string]any{"url": l.src, "whitelist": l.white})
 	}
@@ -732,6 +776,7 @@ func (z *zzC0102Srv) reconfigure(cfg *zzC0102Cfg, rng *rand.Rand) (err error) {
 	}
 
 	z.ops = append(z.ops, "--- reconfigure")
+	oldCustom := z.texts["custom"]
 	byKey := z.render(cfg, rng, false)
 	for _, k := range zzC0102ListKeys {
 		if err = z.setList(z.lists[k], byKey[k], rng); err != nil {
@@ -739,32 +784,50 @@ func (z *zzC0102Srv) reconfigure(cfg *zzC0102Cfg, rng *rand.Rand) (err error) {
 		}
 	}
 
-	// Custom rules last, with a generation marker (a rule for a name outside
-	// every universe): the handlers rebuild the engines asynchronously, the
-	// marker tells when the engines reflect this reconfiguration.
-	z.gen++
-	marker := fmt.Sprintf("gen%d.zz-verif-marker.example", z.gen)
-	rules := append(append([]string{}, z.texts["custom"]...), "||"+marker+"^")
-	if err = z.post("/control/filtering/set_rules", map[string]any{"rules": rules}); err != nil {
-		return err
+	if !zzC0102SameLines(oldCustom, z.texts["custom"]) {
+		rules := append([]string{}, z.texts["custom"]...)
+		if err = z.post("/control/filtering/set_rules", map[string]any{"rules": rules}); err != nil {
+			return err
+		}
 	}
 
-	setts := &filtering.Settings{FilteringEnabled: true, ProtectionEnabled: true}
-	deadline := time.Now().Add(20 * time.Second)
-	for {
-		res, cerr := z.f.CheckHostRules(marker, dns.TypeA, setts)
-		if cerr == nil && res.IsFiltered {
-			break
+	// Blocking mode and custom addresses through dnsforward's own
+	// POST /control/dns_config handler; like the web UI, sometimes although
+	// nothing of it changed.
+	if old.Mode != cfg.Mode || old.Cust != cfg.Cust || rng.Intn(4) == 0 {
+		body := map[string]any{"blocking_mode": cfg.Mode}
+		if cfg.Mode == "custom_ip" {
+			v4, v6 := zzC0102CustAddrs(cfg)
+			body["blocking_ipv4"], body["blocking_ipv6"] = v4.String(), v6.String()
 		}
-		if time.Now().After(deadline) {
-			return fmt.Errorf("harness: engines not rebuilt within 20 s (marker %s)", marker)
+		if err = z.postTo(z.s.handleSetConfig, "/control/dns_config", body); err != nil {
+			return err
 		}
-		time.Sleep(200 * time.Microsecond)
 	}
 
-	if old.Mode != cfg.Mode {
-		z.f.SetBlockingMode(filtering.BlockingMode(cfg.Mode),
-			netip.MustParseAddr(zzC0102Addrs["cust4"]), netip.MustParseAddr(zzC0102Addrs["cust6"]))
+	// Sometimes a list that keeps its rules is switched off and on again
+	// (two reconfigurations without a request in between); last, so that
+	// nothing else of this step rebuilds the engines afterwards.
+	if rng.Intn(3) == 0 {
+		var live []*zzC0102List
+		for _, k := range zzC0102ListKeys {
+			if l := z.lists[k]; l.exists && l.enabled && len(l.lines) > 0 {
+				live = append(live, l)
+			}
+		}
+		if len(live) > 0 {
+			l := live[rng.Intn(len(live))]
+			if err = z.setURL(l, false); err == nil {
+				if rng.Intn(2) == 0 {
+					// let the rebuild without the list happen first
+					time.Sleep(time.Duration(1+rng.Intn(4)) * time.Millisecond)
+				}
+				err = z.setURL(l, true)
+			}
+			if err != nil {
+				return err
+			}
+		}
 	}
 
 	ctx := context.Background()
@@ -777,8 +840,37 @@ func (z *zzC0102Srv) reconfigure(cfg *zzC0102Cfg, rng *rand.Rand) (err error) {
 		}
 	}
 	z.cfg = cfg
+	z.settleUntil = time.Now().Add(zzC0102Settle())
 
 	return err
+}
+
+// settled sends the request until the outcome is admissible or the bound on
+// the wait for the last reconfiguration expires (the handlers rebuild the
+// engines asynchronously; an outcome that is still not admissible when the
+// bound has expired is a disagreement: a reconfiguration that never takes
+// effect is what the properties forbid).
+func (z *zzC0102Srv) settled(
+	req *zzC0102Req,
+	ans []zzC0102RR,
+	rng *rand.Rand,
+	via string,
+	want func(rep bool) []zzC0102Out,
+) (o zzC0102Obs, ok bool) {
+	pause := 200 * time.Microsecond
+	for {
+		o = z.query(req, ans, rng, via)
+		if zzC0102Admissible(o.Out, want(o.Rep)) {
+			return o, true
+		}
+		if !time.Now().Before(z.settleUntil) {
+			return o, false
+		}
+		time.Sleep(pause)
+		if pause < 20*time.Millisecond {
+			pause *= 2
+		}
+	}
 }
 
 // zzC0102Obs is a projected observation plus a description of the concrete
@@ -1111,4 +1203,31 @@ func zzC0102Only() (only map[int]bool) {
 	}
 
 	return only
+}
+
+// quiesce is used by the trace drivers (direction B), which have no expected
+// outcome to wait for: it saves the custom rules once more with a marker rule
+// (for a name outside every universe) and waits until the engines block the
+// marker, i.e. until they were rebuilt after every earlier operation.  (The
+// replay of direction A does NOT do this: a rebuild forced by the harness
+// would hide a reconfiguration that fails to rebuild the engines.)
+func (z *zzC0102Srv) quiesce(gen int) (err error) {
+	marker := fmt.Sprintf("gen%d.zz-verif-marker.example", gen)
+	rules := append(append([]string{}, z.texts["custom"]...), "||"+marker+"^")
+	if err = z.post("/control/filtering/set_rules", map[string]any{"rules": rules}); err != nil {
+		return err
+	}
+
+	setts := &filtering.Settings{FilteringEnabled: true, ProtectionEnabled: true}
+	deadline := time.Now().Add(5 * time.Second)
+	for {
+		res, cerr := z.f.CheckHostRules(marker, dns.TypeA, setts)
+		if cerr == nil && res.IsFiltered {
+			return nil
+		}
+		if time.Now().After(deadline) {
+			return fmt.Errorf("engines not rebuilt within 5 s (marker %s)", marker)
+		}
+		time.Sleep(200 * time.Microsecond)
+	}
 }
